@@ -12,7 +12,11 @@ RULE = ("random epsilon-NFA/NFA/DFA specs (0-5 states, 1-3 symbols, int / random
         "eclose, remove_epsilon_transitions, to_deterministic, copy, minimize against the Lean model "
         "(structure) and the verified language-equivalence oracle. Non-trivial: >=2 states, >=2 "
         "transitions, a start and a final state.")
-THEOREMS = ["Pfl.ENFA.acceptsE_iff",
+THEOREMS = ["Pfl.ENFA.toDet_isSome",
+            "Pfl.ENFA.toDet_named_total",
+            "Pfl.ENFA.mergeName_keyCongr",
+            "Pfl.ENFA.detSeen_order_counterexample",
+            "Pfl.ENFA.acceptsE_iff",
             "Pfl.ENFA.acceptsN_iff",
             "Pfl.ENFA.acceptsD_iff",
             "Pfl.ENFA.removeEps_lang",
